@@ -48,24 +48,90 @@ func (e *BE) inferPost(cone []*ssa.Function) []string {
 	e.inferredPost = map[*ssa.Function]*Contract{}
 	cands := map[*ssa.Function][]postCand{}
 	isErr := func(t types.Type) bool { return types.Identical(t, types.Universe.Lookup("error").Type()) }
+	flagged := map[*ssa.Function]bool{}
 	for _, f := range cone {
-		if f.Parent() != nil || f.Origin() != nil || f.Blocks == nil || ast.IsExported(f.Name()) {
+		if f.Parent() != nil || f.Origin() != nil || f.Blocks == nil {
 			continue
 		}
-		if c := e.contractBase(f); c != nil && (c.Axiom || len(c.Post)+len(c.PostOK)+len(c.Locality) > 0) {
-			continue
+		hasBase := false
+		if c := e.contractBase(f); c != nil {
+			if c.Axiom {
+				continue
+			}
+			hasBase = len(c.Post)+len(c.PostOK)+len(c.Locality) > 0
 		}
 		rs := f.Signature.Results()
-		if rs.Len() < 2 || !(isErr(rs.At(rs.Len()-1).Type()) || isBoolType(rs.At(rs.Len()-1).Type())) {
+		if rs.Len() == 0 {
 			continue
 		}
-		var ints []int
-		for i := 0; i < rs.Len()-1; i++ {
+		if hasBase {
+			// a declared / conventional contract exists: only add what it cannot say - how the table fields of a
+			// returned List / Message relate to the returned size (decodeList: l.table.data + len(l.table.table) <= n)
+			if rs.Len() >= 2 && isErr(rs.At(rs.Len()-1).Type()) {
+				var cs []postCand
+				for i := 0; i < rs.Len()-1; i++ {
+					if !hasInv(rs.At(i).Type()) {
+						continue
+					}
+					for k := 0; k < rs.Len()-1; k++ {
+						b, ok := rs.At(k).Type().Underlying().(*types.Basic)
+						if !ok || b.Kind() != types.Int {
+							continue
+						}
+						for _, ip := range intFieldPaths(rs.At(i).Type(), "", 0) {
+							cs = append(cs, postCand{cLE(cFieldR(i, ip, 'v'), cR(k)), fmt.Sprintf("result %d%s <= result %d", i, ip, k)})
+							for _, bp := range bytesFieldPaths(rs.At(i).Type(), "", 0) {
+								cs = append(cs, postCand{cLE(cAdd(cFieldR(i, ip, 'v'), cFieldR(i, bp, 'l')), cR(k)), fmt.Sprintf("result %d%s + len(result %d%s) <= result %d", i, ip, i, bp, k)})
+							}
+						}
+					}
+				}
+				if len(cs) > 0 {
+					flagged[f] = true
+					cands[f] = cs
+				}
+			}
+			continue
+		}
+		// with a success flag (error / bool as last result) the candidates hold on success; without one, always
+		nval := rs.Len()
+		if rs.Len() >= 2 && (isErr(rs.At(rs.Len()-1).Type()) || isBoolType(rs.At(rs.Len()-1).Type())) {
+			flagged[f] = true
+			nval = rs.Len() - 1
+		} else if ast.IsExported(f.Name()) && !(rs.Len() == 1 && bytesLike(rs.At(0).Type())) {
+			continue
+		}
+		var ints, byts []int
+		for i := 0; i < nval; i++ {
 			if b, ok := rs.At(i).Type().Underlying().(*types.Basic); ok && b.Kind() == types.Int {
 				ints = append(ints, i)
 			}
+			if bytesLike(rs.At(i).Type()) {
+				byts = append(byts, i)
+			}
+		}
+		if ast.IsExported(f.Name()) && flagged[f] && len(byts) == 0 {
+			// exported (value, n, err) functions are the signature convention's business
+			if f.Signature.Recv() == nil {
+				continue
+			}
 		}
 		var cs []postCand
+		// a bytes-like result is no longer than a bytes-like parameter / field, or than an integer field of a struct
+		// parameter (the data size of a table: l.bytes[start:end] with end <= l.table.data)
+		for _, i := range byts {
+			for j, p := range f.Params {
+				if bytesLike(p.Type()) {
+					cs = append(cs, postCand{cLE(cLenR(i), cLenP(j)), fmt.Sprintf("len(result %d) <= len(%s)", i, p.Name())})
+				}
+				for _, path := range bytesFieldPaths(p.Type(), "", 0) {
+					cs = append(cs, postCand{cLE(cLenR(i), cFieldP(j, path, 'l')), fmt.Sprintf("len(result %d) <= len(%s%s)", i, p.Name(), path)})
+				}
+				for _, path := range intFieldPaths(p.Type(), "", 0) {
+					cs = append(cs, postCand{cLE(cLenR(i), cFieldP(j, path, 'v')), fmt.Sprintf("len(result %d) <= %s%s", i, p.Name(), path)})
+				}
+			}
+		}
 		for _, i := range ints {
 			cs = append(cs, postCand{cGE(cR(i), cK(0)), fmt.Sprintf("result %d >= 0", i)})
 			for j, p := range f.Params {
@@ -91,7 +157,11 @@ func (e *BE) inferPost(cone []*ssa.Function) []string {
 		for f, cs := range cands {
 			con := &Contract{Note: "inferred postcondition"}
 			for _, c := range cs {
-				con.PostOK = append(con.PostOK, c.q)
+				if flagged[f] {
+					con.PostOK = append(con.PostOK, c.q)
+				} else {
+					con.Post = append(con.Post, c.q)
+				}
 			}
 			e.inferredPost[f] = con
 		}
@@ -120,10 +190,14 @@ func (e *BE) inferPost(cone []*ssa.Function) []string {
 					if ret.Block() == f.Recover {
 						continue
 					}
-					last := ret.Results[len(ret.Results)-1]
-					extra, feasible := okExtra(last)
-					if !feasible {
-						continue
+					var extra *factSet
+					if flagged[f] {
+						last := ret.Results[len(ret.Results)-1]
+						ex, feasible := okExtra(last)
+						if !feasible {
+							continue
+						}
+						extra = ex
 					}
 					env.results = ret.Results
 					goal, good := func() (q Ineq, good bool) {
